@@ -116,6 +116,11 @@ proof fn lemma_seen_unused_spec_step(s: Seq<(&Ustr, &UserSpec)>, idx: int, n: Us
     if *s[idx].0 == n && !s[idx].1.used { assert(seen_unused_spec(s, idx + 1, n)); }
 }
 
+/// two plain definitions of one name
+spec fn duplicate_plain(ds: Seq<NontermDefn>) -> bool {
+    exists|i: int, j: int| 0 <= i < j < ds.len() && (#[trigger] ds[i]).shell is None && (#[trigger] ds[j]).shell is None && ds[i].lhs_name == ds[j].lhs_name
+}
+
 /// C15, in terms of the input: a statement (call variant or plain definition) refers to n
 spec fn call_variant_refs(g: Grammar, upto: int, n: Ustr) -> bool {
     exists|i: int| 0 <= i < upto && i < call_variant_stmts(g.statements@).len() && has_ref(g.arena@, (#[trigger] call_variant_stmts(g.statements@)[i]).2.0 as int, n)
